@@ -2,4 +2,4 @@
    types of the same shape; Z, positive, nat stay inductive; no Extract Constant. *)
 From Coq Require Import ExtrOcamlBasic.
 Require Import Verif.IpcDataModel.
-Extraction "model_C02.ml" init negotiate step run fixed orig client_fd_readable server_fd_pollin evq_len.
+Extraction "model_C02.ml" init negotiate negotiate_enforced step run fixed orig client_fd_readable server_fd_pollin evq_len.
